@@ -21,5 +21,5 @@ package internal
 //@ func Log2NoCheck
 //@   mode int
 //@   trusted
-//@   ensures x >= 1 ==> result <= 31 && (x < 256 ==> result <= 7) && (x >= 256 ==> result >= 8) && (x < 65536 ==> result <= 15) && (x >= 65536 ==> result >= 16) && (x < 16777216 ==> result <= 23) && (x >= 16777216 ==> result >= 24)
+//@   ensures x >= 1 ==> result <= 31 && (x < 256 ==> result <= 7) && (x >= 256 ==> result >= 8) && (x < 65536 ==> result <= 15) && (x >= 65536 ==> result >= 16) && (x < 16777216 ==> result <= 23) && (x >= 16777216 ==> result >= 24) && result + 1 <= x
 //@   modifies nothing
